@@ -200,7 +200,7 @@ pub struct Par<'a, T> {
 }
 
 impl<'a, T: Send + 'a> Par<'a, T> {
-    fn from_items<I: IntoIterator<Item = T>>(items: I, indexed: bool) -> Par<'a, T> {
+    pub(crate) fn from_items<I: IntoIterator<Item = T>>(items: I, indexed: bool) -> Par<'a, T> {
         Par { thunks: items.into_iter().map(|x| Box::new(move || Some(x)) as Thunk<'a, T>).collect(), indexed }
     }
     pub fn map<R: Send + 'a, F: Fn(T) -> R + Send + Sync + 'a>(self, f: F) -> Par<'a, R> {
@@ -482,12 +482,24 @@ pub mod iter {
         fn par_bridge(self) -> Par<'a, I::Item> { Par::from_items(self, false) }
     }
 
+    pub trait ParallelSlice<T: Sync> {
+        fn par_chunks<'a>(&'a self, n: usize) -> Par<'a, &'a [T]> where T: 'a;
+    }
+    impl<T: Sync> ParallelSlice<T> for [T] {
+        fn par_chunks<'a>(&'a self, n: usize) -> Par<'a, &'a [T]> where T: 'a {
+            Par::from_items(self.chunks(n), true)
+        }
+    }
     pub trait ParallelSliceMut<T: Send> {
+        fn par_chunks_mut<'a>(&'a mut self, n: usize) -> Par<'a, &'a mut [T]> where T: 'a;
         fn par_sort(&mut self) where T: Ord;
         fn par_sort_unstable(&mut self) where T: Ord;
         fn par_sort_by_key<K: Ord, F: Fn(&T) -> K + Sync>(&mut self, f: F);
     }
     impl<T: Send> ParallelSliceMut<T> for [T] {
+        fn par_chunks_mut<'a>(&'a mut self, n: usize) -> Par<'a, &'a mut [T]> where T: 'a {
+            Par::from_items(self.chunks_mut(n), true)
+        }
         fn par_sort(&mut self) where T: Ord { self.sort() }
         fn par_sort_unstable(&mut self) where T: Ord { self.sort_unstable() }
         fn par_sort_by_key<K: Ord, F: Fn(&T) -> K + Sync>(&mut self, f: F) { self.sort_by_key(f) }
@@ -498,7 +510,7 @@ pub mod prelude {
     pub use super::iter::*;
 }
 pub mod slice {
-    pub use super::iter::ParallelSliceMut;
+    pub use super::iter::{ParallelSlice, ParallelSliceMut};
 }
 
 /// `rayon::join`: two tasks in one region.
